@@ -42,11 +42,52 @@ def is_add(s0):
     return o == 'this.positional' or o.startswith('this.named[')
 
 
+
+def copy_origin(e, body, unit, depth=0):
+    """the by-value local (VarDecl) an element expression ultimately lives in, or None when it
+    designates storage reached through references from `this`"""
+    e = strip(e)
+    while e is not None and e.get('kind') in ('ImplicitCastExpr', 'ParenExpr', 'MaterializeTemporaryExpr', 'ExprWithCleanups') and kids(e):
+        e = strip(kids(e)[0])
+    if e is None or depth > 8:
+        return None
+    k = e.get('kind')
+    if k == 'DeclRefExpr':
+        rd = ref_decl(e) or {}
+        d = next((v for v in walk(body) if v.get('kind') == 'VarDecl' and v.get('id') == rd.get('id')), None)
+        if d is None:
+            return None          # parameter / member: not a local copy
+        qt = (qtype(d) or '').rstrip()
+        if qt.endswith('&') or qt.endswith('&&') or qt.endswith('*'):
+            # a reference: follow what it is bound to (range-for variables: the range)
+            lp = d.get('_p')
+            while lp is not None and lp.get('kind') not in ('CXXForRangeStmt', 'CompoundStmt', 'FunctionDecl', 'CXXMethodDecl'):
+                lp = lp.get('_p')
+            if lp is not None and lp.get('kind') == 'CXXForRangeStmt' and not (d.get('name') or '').startswith('__'):
+                rng = next((v for x in kids(lp) if x.get('kind') == 'DeclStmt' for v in kids(x) if v.get('kind') == 'VarDecl' and (v.get('name') or '').startswith('__range') and kids(v)), None)
+                return copy_origin(kids(rng)[-1], body, unit, depth + 1) if rng is not None else None
+            return copy_origin(kids(d)[-1], body, unit, depth + 1) if kids(d) else None
+        dt_ = (dtype(d) or '') + ' ' + (qtype(d) or '')
+        if any(w_ in dt_ for w_ in ('iterator', '_ptr<', 'reference_wrapper', 'span<', 'string_view')):
+            return None          # a handle into storage, not a copy of it
+        # a by-value local of class type: a copy
+        return d if kids(d) and int_type_info(dtype(d) or '') is None else None
+    if k == 'MemberExpr':
+        return copy_origin(kids(e)[0], body, unit, depth + 1) if kids(e) and not is_this(kids(e)[0]) else None
+    if k == 'CXXOperatorCallExpr' and call_name(e) in ('operator[]', 'operator*', 'operator->'):
+        return copy_origin(kids(e)[1], body, unit, depth + 1)
+    if k == 'CXXMemberCallExpr' and call_name(e) in ('at', 'front', 'back', 'begin', 'end', 'second', 'first'):
+        return copy_origin(member_call_object(e), body, unit, depth + 1)
+    if k == 'ArraySubscriptExpr':
+        return copy_origin(e['inner'][0], body, unit, depth + 1)
+    return None
+
 def run(ctx):
     ctx.rule('C17-R1', 'classification: the std::string constructor tokenises with split_args; every path through parse()\'s loop body stores the token once (positional, --name[=value], or one entry per flag letter, unconditionally); branch conditions and key/value slices are the documented ones', 6)
     ctx.rule('C17-R2', 'used flags: wherever an argument\'s text is handed out or parsed its used flag is set on the same element; assert_none_unused walks every container and throws invalid_argument on the first unused entry', 10)
     ctx.rule('C17-R3', 'integer acceptance per parse_int<RetT>: bases 0/16/10/8, "no digits" and "trailing characters" reject before any return; the range test is evaluated on the boundary values of each of the 8 integer types', 60)
     ctx.rule('C17-R4', 'exceptions: malformed text -> invalid_argument; missing argument -> out_of_range; default-value overloads catch out_of_range only', 10)
+    ctx.rule('C17-R5', 'Arguments::parse evaluated (E-TABLE) on every token shape alone, in pairs, and on lists with repeated options and flag groups: positional / --name[=value] / one entry per flag letter, in order', 1)
     u = ctx.unit(repo_unit('Arguments.cc'))
     w = ctx.unit(witness_unit('c17.cc'))
 
@@ -88,128 +129,204 @@ def run(ctx):
                 ctx.check(okm, R, '%s|container-built-by-parse-only|%s.%s@%s' % (f.get('name'), tgt[0], tgt[1], x.get('_line')), x, '%s.%s inside %s' % (tgt[0], tgt[1], f.get('name')),
                           '%s modifies %s through %s: after this call an option that was never given exists with no value, so later getters throw or report it present' % (f.get('name'), tgt[0], tgt[1]))
     ctx.require(nmut >= 4, 'no insertion into named/positional found (expected in parse)')
-    P = u.func('phosg::Arguments::parse')[0]
-    ctx.fn('Arguments::parse')
-    check_no_goto(P)
-    lp = [x for x in walk(body_of(P)) if x.get('kind') == 'CXXForRangeStmt']
-    ctx.require(len(lp) == 1, 'parse: token loop not found')
-    lb = loop_body(lp[0])
-    # Classification is decided as a finite boolean problem: the token shape is described by six
-    # atoms (empty, first char is a dash, length 1, second char is a dash, length 2, an '=' was found);
-    # every store site's path condition is evaluated on all consistent assignments and the union
-    # per kind of store must be exactly the documented class.  Any control-flow shape is accepted.
-    adds = [c for c in walk(lb) if is_add(c)]
-    ATOMS = ['E', 'D0', 'S1', 'D1', 'S2', 'EQ']
+    # ---------------- R5: parse() evaluated (E-TABLE) on token-shape representatives and short lists
+    R5 = 'C17-R5'
+    from peval import PEval, Rec, VecL, MapL, Str as PStr, Lit as PLit, Undecided as PUnd, Fault as PFault, Thrown as PThrown
+    PE5 = PEval([u], max_depth=8)
+    Pfn = next((f_ for f_ in u.func('phosg::Arguments::parse') if body_of(f_) is not None), None)
 
-    def atom_of(n):
-        """(atom, positive?) for a leaf condition, or None"""
-        n0 = strip(n)
-        t = nf(n0).replace('std::basic_string<char>::npos', 'npos').replace('std::string::npos', 'npos')
-        if t == 'arg.empty()':
-            return 'E', True
-        r = relation(n0, True)
-        if r and r[1] in ('==', '!='):
-            a_, b_ = sorted([nf(r[0]).replace('std::basic_string<char>::npos', 'npos').replace('std::string::npos', 'npos'), nf(r[2]).replace('std::basic_string<char>::npos', 'npos').replace('std::string::npos', 'npos')])
-            key = {('45', 'arg[0]'): 'D0', ('45', 'arg[1]'): 'D1', ('1', 'arg.size()'): 'S1', ('2', 'arg.size()'): 'S2'}.get((a_, b_))
-            if key:
-                return key, r[1] == '=='
-            if 'npos' in (a_, b_) and any('find(61' in x_ or 'equal_pos' in x_ for x_ in (a_, b_)):
-                return 'EQ', r[1] == '!='
-            if (a_, b_) == ('0', 'arg.size()'):
-                return 'E', r[1] == '=='
-        return None
-
-    def ev(n, asg):
-        n0 = strip(n)
-        k = n0.get('kind')
-        if k == 'UnaryOperator' and n0.get('opcode') == '!':
-            v = ev(n0['inner'][0], asg)
-            return None if v is None else (not v)
-        if k == 'BinaryOperator' and n0.get('opcode') in ('&&', '||'):
-            x, y = ev(n0['inner'][0], asg), ev(n0['inner'][1], asg)
-            if x is None or y is None:
-                # short-circuit may still decide
-                if n0['opcode'] == '&&' and (x is False or y is False):
-                    return False
-                if n0['opcode'] == '||' and (x is True or y is True):
-                    return True
-                return None
-            return (x and y) if n0['opcode'] == '&&' else (x or y)
-        if k == 'DeclRefExpr':
-            rd = n0.get('referencedDecl') or {}
-            if ((rd.get('type') or {}).get('qualType') or '').replace('const ', '') == 'bool':
-                from path import _single_assignment_init
-                init = _single_assignment_init(rd)
-                if init is not None:
-                    return ev(init, asg)
-        at = atom_of(n0)
-        if at is None:
-            return None
-        return asg[at[0]] if at[1] else (not asg[at[0]])
-    rows = []
-    import itertools
-    for bits in itertools.product((False, True), repeat=6):
-        asg = dict(zip(ATOMS, bits))
-        if asg['E'] and (asg['D0'] or asg['S1'] or asg['D1'] or asg['S2']):
+    def spec_parse(tokens):
+        pos, named = [], {}
+        for t_ in tokens:
+            if not t_ or t_[:1] != b'-' or t_ in (b'-', b'--'):
+                pos.append(t_)
+            elif t_[:2] == b'--':
+                j_ = t_.find(b'=', 2)
+                if j_ < 0:
+                    named.setdefault(t_[2:], []).append(b'')
+                else:
+                    named.setdefault(t_[2:j_], []).append(t_[j_ + 1:])
+            else:
+                for c_ in t_[1:]:
+                    named.setdefault(bytes([c_]), []).append(b'')
+        return pos, named
+    singles = [b'', b'a', b'abc', b'a-b', b'a=b', b'=', b'-', b'--', b'---', b'-a', b'-ab', b'-aab', b'-a-', b'-=', b'-a=b', b'--a', b'--name', b'--name=value', b'--name=', b'--=v', b'--=', b'--n=a=b', b'--a-b=c', b'--x=--y', b'-- ', b' -a']
+    lists = [[t_] for t_ in singles] + [[a_, b_] for a_ in singles[::3] for b_ in singles[1::4]] + [[b'--x=1', b'p', b'--x=2', b'-vv', b'q'], [b'-v', b'-v', b'--v'], [b'p1', b'p2', b'p3']]
+    r5 = {'ok': 0, 'bad': None, 'und': None}
+    for toks in lists:
+        if Pfn is None:
+            r5['und'] = 'Arguments::parse not found'
+            break
+        this = Rec()
+        this.f['positional'] = VecL()
+        this.f['named'] = MapL()
+        try:
+            PE5.call_with(Pfn, [VecL([PStr(t_) for t_ in toks])], this=this)
+        except (PThrown, PFault) as e_:
+            r5['bad'] = r5['bad'] or (toks, 'evaluation throws / faults: %s' % e_)
             continue
-        if asg['S1'] and (asg['S2'] or asg['D1']):
-            continue
-        rows.append(asg)
-
-    def kind_of(c):
-        t = nf(c)
-        if t.startswith('this.positional.'):
-            return 'positional' if t == 'this.positional.emplace_back(move(arg))' or t == 'this.positional.emplace_back(arg)' or t == 'this.positional.push_back(arg)' else None
-        if t == 'this.named[arg.substr(2, (equal_pos - 2))].emplace_back(arg.substr((1 + equal_pos)))':
-            return 'named=value'
-        if t in ('this.named[arg.substr(2)].emplace_back("")', 'this.named[arg.substr(2)].emplace_back()'):
-            return 'named'
-        if t in ('this.named[arg.substr(z, 1)].emplace_back("")', 'this.named[arg.substr(z, 1)].emplace_back()'):
-            return 'flags'
-        return None
-    want_cls = {
-        'positional': lambda a: a['E'] or not a['D0'] or a['S1'] or (a['D1'] and a['S2']),
-        'flags': lambda a: a['D0'] and not a['E'] and not a['S1'] and not a['D1'],
-        'named=value': lambda a: a['D0'] and not a['S1'] and a['D1'] and not a['S2'] and a['EQ'],
-        'named': lambda a: a['D0'] and not a['S1'] and a['D1'] and not a['S2'] and not a['EQ'],
-    }
-    reach = {k_: [False] * len(rows) for k_ in want_cls}
-    unknown_site = None
-    for c in adds:
-        kd = kind_of(c)
-        if kd is None:
-            ctx.bad(R, 'parse|slices|%s' % nf(c)[:50], c, 'token is stored as `%s`, which is none of: positional arg / name between -- and = with the value after = / --name with empty value / one letter per flag' % nf(c))
-            continue
-        facts = path_facts(c, stop=lp[0])
-        # conditions of loops between the site and the token loop (the flag-group loop) are not shape atoms
-        facts = [f_ for f_ in facts if f_.origin is None or f_.origin.get('kind') not in LOOPS]
-        for i_, asg in enumerate(rows):
-            vals = [ev(f_.cond, asg) for f_ in facts]
-            if any(v is None for v in vals):
-                unknown_site = (c, [nf(f_.cond) for f_, v in zip(facts, vals) if v is None][:2])
-                break
-            if all(v == f_.pol for v, f_ in zip(vals, facts)):
-                reach[kd][i_] = True
-    if unknown_site is not None:
-        ctx.undecided(R, 'parse|partition', unknown_site[0], 'a store site is guarded by a condition outside the six token-shape atoms: %s' % unknown_site[1])
+        except PUnd as e_:
+            r5['und'] = str(e_)
+            break
+        tx = lambda x_: bytes(x_.b) if isinstance(x_, PStr) else x_.cstr() if isinstance(x_, PLit) else x_
+        got = ([tx(x_) for x_ in this.f['positional'].items], {k_: [tx(x_) for x_ in v_.items] for k_, v_ in this.f['named'].d.items()})
+        want = spec_parse(toks)
+        if got != want:
+            r5['bad'] = r5['bad'] or (toks, 'it is classified as positional %s, named %s; the documented classification is positional %s, named %s' % (got[0], got[1], want[0], want[1]))
+        else:
+            r5['ok'] += 1
+    if r5['und']:
+        ctx.undecided(R5, 'parse|evaluated', Pfn or u.path, 'Arguments::parse could not be evaluated (%s)' % r5['und'])
+    elif r5['bad']:
+        ctx.bad(R5, 'parse|evaluated', Pfn, 'for the token list %s %s' % ([t_.decode('latin1') for t_ in r5['bad'][0]], r5['bad'][1]))
     else:
-        for kd, fn_ in want_cls.items():
-            wrong = [rows[i_] for i_ in range(len(rows)) if reach[kd][i_] != bool(fn_(rows[i_]))]
-            ctx.check(not wrong, R, 'parse|partition|' + kd, lp[0], 'tokens stored as %s are exactly the documented class' % kd,
-                      'a token with shape {%s} is %s stored as %s' % (', '.join('%s=%d' % (k_, v_) for k_, v_ in (wrong[0] if wrong else {}).items()), 'wrongly' if wrong and reach[kd][rows.index(wrong[0])] else 'not', kd))
-        multi = [i_ for i_ in range(len(rows)) if sum(1 for kd in reach if reach[kd][i_]) != 1]
-        ctx.check(not multi, R, 'parse|every-token-stored', lp[0], 'every token shape reaches exactly one kind of store', 'a token with shape {%s} reaches %d kinds of store: it is dropped or recorded twice' % (', '.join('%s=%d' % (k_, v_) for k_, v_ in (rows[multi[0]] if multi else {}).items()), sum(1 for kd in reach if multi and reach[kd][multi[0]])))
-    esc = [x for x in walk(lb) if x.get('kind') in ('BreakStmt', 'ReturnStmt') and enclosing(x, LOOPS) is lp[0]]
-    ctx.check(not esc, R, 'parse|no-early-exit', esc[0] if esc else lp[0], 'the token loop is never left early', 'parse() leaves the token loop early: the remaining tokens are dropped')
-    fl = [x for x in walk(lb) if x.get('kind') == 'ForStmt']
-    okf = len(fl) == 1
-    if okf:
-        init, cv, cond, inc, fb = for_parts(fl[0])
-        zd = next((v for v in walk(init) if v.get('kind') == 'VarDecl'), None)
-        okf = zd is not None and int_value(kids(zd)[-1]) == 1 and nf(cond) in ('(0 != arg[z])', '(arg[z] != 0)', '(z < arg.size())') and nf(inc) == '(z++)' and [is_add(strip(s)) for s in stmts_of(fb)] == [True]
-    ctx.check(okf, R, 'parse|flag-group', fl[0] if fl else lp[0], 'every letter after the dash becomes one flag entry', 'the flag-group loop does not record exactly one entry per letter unconditionally (repeated letters must be kept: get_multi counts them)')
-    eq = next((v for v in walk(lb) if v.get('kind') == 'VarDecl' and v.get('name') == 'equal_pos'), None)
-    ctx.check(eq is not None and nf(kids(eq)[-1]) == 'arg.find(61, 2)', R, 'parse|equals-search', eq or lp[0], 'the first = after the -- prefix splits name and value', 'the = search changed: %s' % (nf(kids(eq)[-1]) if eq else None))
+        ctx.ok(R5, 'parse|evaluated', Pfn, '%d token lists (every token shape alone, in pairs, repeated options and flag groups) are classified as documented, in order' % r5['ok'])
+    r5_decides = not r5['und'] and not r5['bad']
+
+    class _Shape(Exception):
+        pass
+
+    def need(cond, msg):
+        if not cond:
+            raise _Shape(msg)
+
+    def parse_structure():
+        P = u.func('phosg::Arguments::parse')[0]
+        ctx.fn('Arguments::parse')
+        check_no_goto(P)
+        lp = [x for x in walk(body_of(P)) if x.get('kind') == 'CXXForRangeStmt']
+        need(len(lp) == 1, 'parse: token loop not found')
+        lb = loop_body(lp[0])
+        # Classification is decided as a finite boolean problem: the token shape is described by six
+        # atoms (empty, first char is a dash, length 1, second char is a dash, length 2, an '=' was found);
+        # every store site's path condition is evaluated on all consistent assignments and the union
+        # per kind of store must be exactly the documented class.  Any control-flow shape is accepted.
+        adds = [c for c in walk(lb) if is_add(c)]
+        ATOMS = ['E', 'D0', 'S1', 'D1', 'S2', 'EQ']
+
+        def atom_of(n):
+            """(atom, positive?) for a leaf condition, or None"""
+            n0 = strip(n)
+            t = nf(n0).replace('std::basic_string<char>::npos', 'npos').replace('std::string::npos', 'npos')
+            if t == 'arg.empty()':
+                return 'E', True
+            r = relation(n0, True)
+            if r and r[1] in ('==', '!='):
+                a_, b_ = sorted([nf(r[0]).replace('std::basic_string<char>::npos', 'npos').replace('std::string::npos', 'npos'), nf(r[2]).replace('std::basic_string<char>::npos', 'npos').replace('std::string::npos', 'npos')])
+                key = {('45', 'arg[0]'): 'D0', ('45', 'arg[1]'): 'D1', ('1', 'arg.size()'): 'S1', ('2', 'arg.size()'): 'S2'}.get((a_, b_))
+                if key:
+                    return key, r[1] == '=='
+                if 'npos' in (a_, b_) and any('find(61' in x_ or 'equal_pos' in x_ for x_ in (a_, b_)):
+                    return 'EQ', r[1] == '!='
+                if (a_, b_) == ('0', 'arg.size()'):
+                    return 'E', r[1] == '=='
+            return None
+
+        def ev(n, asg):
+            n0 = strip(n)
+            k = n0.get('kind')
+            if k == 'UnaryOperator' and n0.get('opcode') == '!':
+                v = ev(n0['inner'][0], asg)
+                return None if v is None else (not v)
+            if k == 'BinaryOperator' and n0.get('opcode') in ('&&', '||'):
+                x, y = ev(n0['inner'][0], asg), ev(n0['inner'][1], asg)
+                if x is None or y is None:
+                    # short-circuit may still decide
+                    if n0['opcode'] == '&&' and (x is False or y is False):
+                        return False
+                    if n0['opcode'] == '||' and (x is True or y is True):
+                        return True
+                    return None
+                return (x and y) if n0['opcode'] == '&&' else (x or y)
+            if k == 'DeclRefExpr':
+                rd = n0.get('referencedDecl') or {}
+                if ((rd.get('type') or {}).get('qualType') or '').replace('const ', '') == 'bool':
+                    from path import _single_assignment_init
+                    init = _single_assignment_init(rd)
+                    if init is not None:
+                        return ev(init, asg)
+            at = atom_of(n0)
+            if at is None:
+                return None
+            return asg[at[0]] if at[1] else (not asg[at[0]])
+        rows = []
+        import itertools
+        for bits in itertools.product((False, True), repeat=6):
+            asg = dict(zip(ATOMS, bits))
+            if asg['E'] and (asg['D0'] or asg['S1'] or asg['D1'] or asg['S2']):
+                continue
+            if asg['S1'] and (asg['S2'] or asg['D1']):
+                continue
+            rows.append(asg)
+
+        def kind_of(c):
+            t = nf(c)
+            if t.startswith('this.positional.'):
+                return 'positional' if t == 'this.positional.emplace_back(move(arg))' or t == 'this.positional.emplace_back(arg)' or t == 'this.positional.push_back(arg)' else None
+            if t == 'this.named[arg.substr(2, (equal_pos - 2))].emplace_back(arg.substr((1 + equal_pos)))':
+                return 'named=value'
+            if t in ('this.named[arg.substr(2)].emplace_back("")', 'this.named[arg.substr(2)].emplace_back()'):
+                return 'named'
+            if t in ('this.named[arg.substr(z, 1)].emplace_back("")', 'this.named[arg.substr(z, 1)].emplace_back()'):
+                return 'flags'
+            return None
+        want_cls = {
+            'positional': lambda a: a['E'] or not a['D0'] or a['S1'] or (a['D1'] and a['S2']),
+            'flags': lambda a: a['D0'] and not a['E'] and not a['S1'] and not a['D1'],
+            'named=value': lambda a: a['D0'] and not a['S1'] and a['D1'] and not a['S2'] and a['EQ'],
+            'named': lambda a: a['D0'] and not a['S1'] and a['D1'] and not a['S2'] and not a['EQ'],
+        }
+        reach = {k_: [False] * len(rows) for k_ in want_cls}
+        unknown_site = None
+        for c in adds:
+            kd = kind_of(c)
+            if kd is None:
+                ctx.bad(R, 'parse|slices|%s' % nf(c)[:50], c, 'token is stored as `%s`, which is none of: positional arg / name between -- and = with the value after = / --name with empty value / one letter per flag' % nf(c))
+                continue
+            facts = path_facts(c, stop=lp[0])
+            # conditions of loops between the site and the token loop (the flag-group loop) are not shape atoms
+            facts = [f_ for f_ in facts if f_.origin is None or f_.origin.get('kind') not in LOOPS]
+            for i_, asg in enumerate(rows):
+                vals = [ev(f_.cond, asg) for f_ in facts]
+                if any(v is None for v in vals):
+                    unknown_site = (c, [nf(f_.cond) for f_, v in zip(facts, vals) if v is None][:2])
+                    break
+                if all(v == f_.pol for v, f_ in zip(vals, facts)):
+                    reach[kd][i_] = True
+        if unknown_site is not None:
+            ctx.undecided(R, 'parse|partition', unknown_site[0], 'a store site is guarded by a condition outside the six token-shape atoms: %s' % unknown_site[1])
+        else:
+            for kd, fn_ in want_cls.items():
+                wrong = [rows[i_] for i_ in range(len(rows)) if reach[kd][i_] != bool(fn_(rows[i_]))]
+                ctx.check(not wrong, R, 'parse|partition|' + kd, lp[0], 'tokens stored as %s are exactly the documented class' % kd,
+                          'a token with shape {%s} is %s stored as %s' % (', '.join('%s=%d' % (k_, v_) for k_, v_ in (wrong[0] if wrong else {}).items()), 'wrongly' if wrong and reach[kd][rows.index(wrong[0])] else 'not', kd))
+            multi = [i_ for i_ in range(len(rows)) if sum(1 for kd in reach if reach[kd][i_]) != 1]
+            ctx.check(not multi, R, 'parse|every-token-stored', lp[0], 'every token shape reaches exactly one kind of store', 'a token with shape {%s} reaches %d kinds of store: it is dropped or recorded twice' % (', '.join('%s=%d' % (k_, v_) for k_, v_ in (rows[multi[0]] if multi else {}).items()), sum(1 for kd in reach if multi and reach[kd][multi[0]])))
+        esc = [x for x in walk(lb) if x.get('kind') in ('BreakStmt', 'ReturnStmt') and enclosing(x, LOOPS) is lp[0]]
+        ctx.check(not esc, R, 'parse|no-early-exit', esc[0] if esc else lp[0], 'the token loop is never left early', 'parse() leaves the token loop early: the remaining tokens are dropped')
+        fl = [x for x in walk(lb) if x.get('kind') == 'ForStmt']
+        okf = len(fl) == 1
+        if okf:
+            init, cv, cond, inc, fb = for_parts(fl[0])
+            zd = next((v for v in walk(init) if v.get('kind') == 'VarDecl'), None)
+            okf = zd is not None and int_value(kids(zd)[-1]) == 1 and nf(cond) in ('(0 != arg[z])', '(arg[z] != 0)', '(z < arg.size())') and nf(inc) == '(z++)' and [is_add(strip(s)) for s in stmts_of(fb)] == [True]
+        ctx.check(okf, R, 'parse|flag-group', fl[0] if fl else lp[0], 'every letter after the dash becomes one flag entry', 'the flag-group loop does not record exactly one entry per letter unconditionally (repeated letters must be kept: get_multi counts them)')
+        eq = next((v for v in walk(lb) if v.get('kind') == 'VarDecl' and v.get('name') == 'equal_pos'), None)
+        ctx.check(eq is not None and nf(kids(eq)[-1]) == 'arg.find(61, 2)', R, 'parse|equals-search', eq or lp[0], 'the first = after the -- prefix splits name and value', 'the = search changed: %s' % (nf(kids(eq)[-1]) if eq else None))
+
+
+    real_bad = ctx.bad
+    if r5_decides:
+        ctx.bad = lambda rule_, key_, node_, detail_='': ctx.undecided(rule_, key_, node_, 'differs from the structural pattern (%s); behaviour decided by evaluation (C17-R5)' % detail_[:160])
+    try:
+        parse_structure()
+    except (_Shape, StopIteration) as e_:
+        if r5_decides:
+            ctx.undecided(R, 'parse|structure', u.path, 'parse() is not written in the shape the structural rule reads (%s): decided by evaluation (C17-R5)' % (e_ or 'anchor missing'))
+        else:
+            raise AnalysisBroken(str(e_) or 'anchor missing')
+    finally:
+        ctx.bad = real_bad
 
     # ---------------- R2
     R = 'C17-R2'
@@ -232,6 +349,10 @@ def run(ctx):
             marks = [s for s in kids(blk) if strip(s).get('kind') == 'BinaryOperator' and nf(strip(s)) == '(%s.used = 1)' % base]
             ctx.check(len(marks) == 1, R, '%s|text-use#%d-marks-used' % (lab, i), t, '%s.used = true next to the use of %s.text' % (base, base),
                       '%s.text is handed out without setting %s.used: assert_none_unused() then reports an argument that was read' % (base, base))
+            # the element that is marked must be the stored one, not an element of a copy of the container
+            cp = copy_origin(t['inner'][0], body, w)
+            if cp is not None:
+                ctx.bad(R, '%s|text-use#%d-marks-stored-element' % (lab, i), cp, '%s is an element of `%s`, a by-value copy of the stored arguments: setting %s.used marks the copy, the stored argument stays unused and assert_none_unused() reports an argument that was read' % (base, src_text(cp, 60), base))
     ctx.require(n_text >= 8, 'uses of ArgText::text not found (%d)' % n_text)
     anu = u.func('phosg::Arguments::assert_none_unused')[0]
     ctx.fn('Arguments::assert_none_unused')
@@ -242,10 +363,21 @@ def run(ctx):
         if x.get('kind') == 'MemberExpr' and x.get('name') in holders and (not x.get('inner') or is_this(x['inner'][0])):
             walked.add(x['name'])
     ctx.check(holders == ['named', 'positional'] and walked == set(holders), R, 'assert_none_unused|all-containers', anu, 'walks %s' % holders, 'assert_none_unused does not inspect %s' % sorted(set(holders) - walked))
-    tests = [x for x in walk(body_of(anu)) if x.get('kind') == 'IfStmt']
-    okt = len(tests) == 2 and all(re.match(r'^!\w+\.used$', nf(if_parts(x)[0])) for x in tests) and all(any(t.get('kind') == 'CXXThrowExpr' and 'invalid_argument' in (dtype(kids(t)[0]) or '') for t in walk(if_parts(x)[1])) for x in tests)
+    # every throw is reached exactly under `!entry.used` (an `if (used) continue;` before it is the same
+    # thing); nothing else leaves a loop
+    throws_ = [t for t in walk(body_of(anu)) if t.get('kind') == 'CXXThrowExpr']
+    okt = len(throws_) == 2 and all('invalid_argument' in (dtype(kids(t)[0]) or '') for t in throws_)
+    for t in throws_:
+        fs_ = [(nf(n_), pol_) for n_, pol_ in atoms(path_facts(t))]
+        used_ = [f_ for f_ in fs_ if f_[0].endswith('.used')]
+        other_ = [f_ for f_ in fs_ if not f_[0].endswith('.used')]
+        okt = okt and len(used_) == 1 and bool(re.match(r'^[\w\[\]\.]+\.used$', used_[0][0])) and used_[0][1] is False and all('.size()' in f_[0] and f_[1] for f_ in other_)
     loops_ = [x for x in walk(body_of(anu)) if x.get('kind') in LOOPS]
-    okt = okt and len(loops_) == 3 and not any(x.get('kind') in ('BreakStmt', 'ContinueStmt', 'ReturnStmt') for x in walk(body_of(anu)))
+    okt = okt and len(loops_) == 3 and not any(x.get('kind') in ('BreakStmt', 'ReturnStmt') for x in walk(body_of(anu)))
+    for c_ in [x for x in walk(body_of(anu)) if x.get('kind') == 'ContinueStmt']:
+        fs_ = [(nf(n_), pol_) for n_, pol_ in atoms(path_facts(c_))]
+        used_ = [f_ for f_ in fs_ if f_[0].endswith('.used')]
+        okt = okt and len(used_) == 1 and used_[0][1] is True and all('.size()' in f_[0] and f_[1] for f_ in fs_ if f_ not in used_)
     ctx.check(okt, R, 'assert_none_unused|throws-on-unused', anu, 'every entry is tested; an unused one throws invalid_argument', 'assert_none_unused no longer tests every entry / throws invalid_argument')
 
     # ---------------- R3
